@@ -406,6 +406,10 @@ TIES = {
                             'set_reporter2_tie', 'setreporter_sem'],
                   cxx='sequence_handler_base::set_limits, runtime_times::action (RT_TIMES), sequence_type::add_last / add_retired, '
                       'set_tracer, set_reporter (both overloads) (mock.hpp, sequence.hpp)'),
+    'Monitors': dict(props=['C13'], gen=['ChainLifetimeMonitor', 'ExpectDeath', 'NullOnMoveAssignPtr', 'NullOnMoveAssignCopy', 'NullOnMoveAssignMove'],
+                     theorems=['expect_death_eq', 'expect_death_tie', 'null_on_move_assign_ptr_tie', 'null_on_move_assign_copy_tie',
+                               'null_on_move_assign_move_tie'],
+                     cxx='chain_lifetime_monitor, deathwatched<T>::trompeloeil_expect_death (lifetime.hpp), null_on_move<T>::operator= (mock.hpp)'),
     'Ring': dict(props=['C14'], gen=['RingUnlink', 'RingElemDtor', 'RingMoveAssign', 'RingPushFront', 'RingPushBack', 'RingBegin', 'RingEnd',
                                     'RingIterIncr', 'RingIsLinked', 'RingListDtor'],
                  theorems=['ring_unlink_tie', 'ring_elem_dtor_tie', 'ring_move_assign_tie', 'ring_push_front_tie', 'ring_push_back_tie',
